@@ -42,7 +42,7 @@ def model_checks(tier):
 
 
 def cases(tier, seed, info):
-    n = 60 if tier == 'quick' else 1500
+    n = 60 if tier == 'quick' else 6000
     gen, r = tlc.generate('gen/Gen_PelDir', simulate=max(20, n // 8), seed=seed + 1, depth=6)
     uniq = {}
     for g in gen:
@@ -54,7 +54,7 @@ def cases(tier, seed, info):
     info['tlc_behaviours_emitted'] = len(gen)
     info['tlc_behaviours_used'] = len(out)
     # code -> spec direction: random sequences on random trees
-    m = 40 if tier == 'quick' else 1500
+    m = 40 if tier == 'quick' else 6000
     kinds = ['list', 'all', 'count', 'plid', 'src', 'srcex', 'id', 'bmcid', 'listhex', 'allrev', 'listext',
              'delete', 'delete', 'deleteall', 'json', 'jsonout', 'jsonclean', 'file', 'fileclean', 'filehex',
              'list+deleteall', 'count+delete', 'deletebadid', 'all+deleteall', 'plid+delete']
